@@ -297,6 +297,10 @@ def gen_formula(rng, depth=3, dots=False, mutate=0.2):
         shape = rng.choice(["rhs", "rhs", "two", "parts", "twoparts"])
         lhs = g.add() if shape in ("two", "twoparts") else None
         rhs = [g.add() for _ in range(rng.randint(2, 3) if "parts" in shape else 1)]
+        if dots and lhs is not None and rng.random() < 0.5:
+            # '.' on the right together with variables used on the left through Python code / quoted names
+            lhs = ("add", lhs[1] + [(["+"], ("atom", rng.choice(["log(a)", "f(b, c)", "np.exp(c)", "log(y)", "I(x)", "`y`", "g(a, y)"])))])
+            rhs[0] = ("add", rhs[0][1] + [(["+"], ("dot",))])
         try:
             for t in ([lhs] if lhs is not None else []) + rhs:
                 est_terms(t)
